@@ -101,7 +101,8 @@ class PropertyCheck:
     # property are reported here (a rejection with another property's clause is reported by that property's check)
     whole_run_clauses: tuple = ()
     # further protocol specifications checked alongside (own MC instance, driver and trace validator); a rejection is
-    # reported here only when its clause starts with one of the given prefixes:  ((driver module, (prefix, ...)), ...)
+    # reported here only when its clause starts with one of the given prefixes:  ((driver module, (prefix, ...)[, size]), ...)
+    # (size "medium": the thorough tier uses a smaller instance - the full one runs in the check that owns most clauses)
     attached: tuple = ()
 
 
@@ -272,13 +273,14 @@ def _run(check: PropertyCheck, driver_module: str, tier: str, seed: int, t0: flo
                           f"{v['clause']} (not a clause of {prop}; reported by the owning property's check, if any)")
     # ---- attached protocol specifications
     attached_info = []
-    for att_mod, prefixes in check.attached:
+    for att_mod, prefixes, *att_opts in check.attached:
         import importlib
         att = importlib.import_module(att_mod).ATTACH
+        att_size = att_opts[0] if att_opts else "full"
         info = {"specification": att["spec"], "trace_module": att["trace_module"], "model_runs": [], "replayed": 0, "events": 0,
                 "foreign_rejections": 0}
         asc = []
-        for spec in att["model_runs"](tier):
+        for spec in att["model_runs"](tier, att_size):
             res = tlc.run_tlc(spec["module"], spec.get("cfg"), workers=spec.get("workers", 1), constants=spec.get("constants"),
                               timeout=spec.get("timeout", 3600), heap=spec.get("heap", "3g"))
             if spec.get("expect_violation"):
